@@ -167,12 +167,12 @@ pub fn run(toks: &[&str], out: &mut Vec<String>) -> R<()> {
         }
         "u2pd" => {
             want(toks, 3)?;
-            #[cfg(feature = "chk")]
+            #[cfg(any(feature = "chk", all(debug_assertions, feature = "chkdbg")))]
             match p_opd(toks[2])? {
                 Opd::U(u) => out.push(f_try(&PositionDerivative::try_from(u))),
                 _ => return Err(NoImpl),
             }
-            #[cfg(not(feature = "chk"))]
+            #[cfg(not(any(feature = "chk", all(debug_assertions, feature = "chkdbg"))))]
             return Err(NoImpl);
         }
         "c2q" => {
@@ -182,12 +182,12 @@ pub fn run(toks: &[&str], out: &mut Vec<String>) -> R<()> {
         }
         "q2c" => {
             want(toks, 3)?;
-            #[cfg(feature = "chk")]
+            #[cfg(any(feature = "chk", all(debug_assertions, feature = "chkdbg")))]
             match p_opd(toks[2])? {
                 Opd::Q(q) => out.push(f_try(&Command::try_from(q))),
                 _ => return Err(NoImpl),
             }
-            #[cfg(not(feature = "chk"))]
+            #[cfg(not(any(feature = "chk", all(debug_assertions, feature = "chkdbg"))))]
             return Err(NoImpl);
         }
         "c2pd" => {
@@ -219,9 +219,9 @@ pub fn run(toks: &[&str], out: &mut Vec<String>) -> R<()> {
         }
         "uceq" => {
             let (_a, _b) = two_units(toks)?;
-            #[cfg(feature = "chk")]
+            #[cfg(any(feature = "chk", all(debug_assertions, feature = "chkdbg")))]
             out.push(_a.const_eq(&_b).enc());
-            #[cfg(not(feature = "chk"))]
+            #[cfg(not(any(feature = "chk", all(debug_assertions, feature = "chkdbg"))))]
             return Err(NoImpl);
         }
         "ueqt" => {
@@ -244,12 +244,12 @@ pub fn run(toks: &[&str], out: &mut Vec<String>) -> R<()> {
         }
         "ucaeq" => {
             let (_a, _b) = two_units(toks)?;
-            #[cfg(feature = "chk")]
+            #[cfg(any(feature = "chk", all(debug_assertions, feature = "chkdbg")))]
             {
                 _a.const_assert_eq(&_b);
                 out.push("ok".to_string());
             }
-            #[cfg(not(feature = "chk"))]
+            #[cfg(not(any(feature = "chk", all(debug_assertions, feature = "chkdbg"))))]
             return Err(NoImpl);
         }
         _ => return Err(NoImpl),
